@@ -1105,8 +1105,9 @@ pub fn gen_mixed_scaled(rng: &mut Rng, size: usize, rejected: &mut u64) -> Case 
     let c = gen_mixed_unscaled(rng, size, rejected);
     // (needles stay at integer coordinates: their areas are only exact in integer arithmetic)
     if rng.below(12) == 0 && c.family != "D7-needle" {
-        let k = rng.range(40, 200) as i32;
-        let k = if rng.below(3) == 0 { k } else { -k };
+        // downwards to 2^-200 (below that squared cross products underflow), upwards to 2^400 (they overflow to +inf,
+        // which the library only tests for being positive)
+        let k = if rng.below(3) == 0 { rng.range(40, 400) as i32 } else { -(rng.range(40, 200) as i32) };
         scaled_by_pow2(c, k)
     } else {
         c
